@@ -3,6 +3,7 @@
 package main
 
 import (
+	"strconv"
 	"bufio"
 	"bytes"
 	"encoding/hex"
@@ -344,6 +345,15 @@ func main() {
 			fmt.Fprintln(w, doDiagnose(arg))
 		case f[0] == "H":
 			fmt.Fprintln(w, doHelper(f[1:]))
+		case f[0] == "Q":
+			// goLiteral of the argument, and what the Go toolchain reads the resulting literal back as
+			q := compiler.VerifGoLiteral(string(arg))
+			back, uerr := strconv.Unquote(`"` + q + `"`)
+			ok := "ok"
+			if uerr != nil || back != string(arg) {
+				ok = "differs"
+			}
+			fmt.Fprintf(w, "_%s %s\n", hex.EncodeToString([]byte(q)), ok)
 		case f[0] == "K":
 			fmt.Fprintln(w, doConcurrent(f[1:]))
 		default:
